@@ -176,7 +176,7 @@ def calc_cav_dp(asig):
     start = 0
     pga_max = 0
     cav_dp = 0
-    points_per_sec = (int(1 / asig.dt))
+    points_per_sec = int(round(1 / asig.dt))
     total_seconds = int(asig.time[-1])
     cav_dp_1_series = []
     acc_in_g = asig.values / 9.81
